@@ -213,21 +213,28 @@ def evaluate(ctx, deep):
                           nontrivial=n >= 2, sample={"class": cls_name, "n": n, "split": s, "how": how,
                                                      "formula": expected_width(cls_name, n, s, how)} if n == 5 else None)
                 eval_case(ctx, cls_name, n, s, how, fam, vec, simulate=False)
-    # 2. simulated cases
-    max_width = 24 if deep else 20
-    for (cls_name, n, s, how) in sim_configs(max_width, 11 if deep else 10):
+    # 2. simulated cases (cost grows quickly with width and with n: the plan below keeps quick at about 2 minutes)
+    core = ["complex", "sparse", "zero_subtrees", "real", "left_zero", "basis"]
+    for (cls_name, n, s, how) in sim_configs(24 if deep else 20, 10 if deep else 8):
         w = expected_width(cls_name, n, s, how)
-        if w <= 12:
-            fams, reps = FAMILIES, (3 if deep else 2)
-        elif w <= 16:
-            fams, reps = FAMILIES, 1
-        elif w <= 20:
-            fams = FAMILIES if deep else ["complex", "sparse", "zero_subtrees", "real"]
-            reps = 1
-        else:
-            fams, reps = ["complex", "zero_subtrees"], 1
         if how != "opt":
             fams, reps = ["complex", "sparse"], 1
+        elif w <= 12 and n <= 6:
+            fams, reps = FAMILIES, (4 if deep else 2)
+        elif w <= 16 and n <= 6:
+            fams, reps = FAMILIES, (2 if deep else 1)
+        elif n <= 8 and w <= 16:
+            fams, reps = (FAMILIES if deep else core), 1
+        elif w <= 20 and n <= 6:
+            fams, reps = (FAMILIES if deep else core[:4]), 1
+        elif w <= 20 and n <= 9:
+            fams, reps = core[:3], 1
+        elif w <= 20:                       # n = 10 (deep only): s = 9 (19 qubits, about a minute), s = 10
+            fams, reps = (core[:1] if s < n else core[:2]), 1
+        elif n <= 5:                        # 23 qubits, deep only
+            fams, reps = core[:3:2], 1
+        else:                               # n = 7, s = 5: 23 qubits, > 1 minute per case
+            fams, reps = core[2:3], 1
         for fam in fams:
             for _ in range(reps):
                 vec = make_vector(rng, n, fam)
